@@ -8,6 +8,7 @@ import (
 	"encoding/json"
 	"fmt"
 	"github.com/trustbloc/sidetree-go/pkg/vdr/sidetreelongform/dochandler"
+	"github.com/trustbloc/sidetree-go/pkg/versions/1_0/model"
 	"math/rand"
 	"strings"
 
@@ -30,6 +31,7 @@ type reqSpec struct {
 	origin                                              interface{}
 	typeMember                                          *string
 	signedReveal                                        bool
+	pad                                                 map[string]string // hash field -> padding appended to its spelling
 	signedSuffix                                        *string
 	revealOfOtherKey                                    bool
 	didSuffix                                           string
@@ -73,13 +75,16 @@ func buildReq(sp reqSpec, r *rand.Rand, algs []uint) builtReq {
 	if sp.updCSameAsRecC {
 		updC = recC
 	}
+	// a hash spelled with trailing '=' padding (not the unpadded base64url the protocol uses)
+	updC += sp.pad["updateCommitment"]
+	recC += sp.pad["recoveryCommitment"]
 	delta := M{"updateCommitment": updC}
 	if sp.emptyPatches {
 		delta["patches"] = A{}
 	} else {
 		delta["patches"] = sp.patches
 	}
-	deltaHash := modelHash(delta, sp.deltaHashCode)
+	deltaHash := modelHash(delta, sp.deltaHashCode) + sp.pad["deltaHash"]
 	out := builtReq{delta: delta, hashes: map[string]string{"updateCommitment": updC, "deltaHash": deltaHash}, deltaSize: len(jcs(delta))}
 	req := M{"type": sp.typ}
 	if sp.typeMember != nil {
@@ -105,6 +110,7 @@ func buildReq(sp reqSpec, r *rand.Rand, algs []uint) builtReq {
 	if sp.revealOfOtherKey {
 		reveal = revealOf(genKey(r, sp.kind).jwk(), sp.revealCode)
 	}
+	reveal += sp.pad["revealValue"]
 	out.hashes["revealValue"] = reveal
 	switch sp.typ {
 	case "create":
@@ -305,6 +311,12 @@ func genParseCases(r *rand.Rand) []parseCase {
 			c.MaxOperationHashLength = 200
 			b2 := buildReq(sp, r, c.MultihashAlgorithms)
 			add("hash-second-configured-algorithm:"+field, c, b2, typ, true)
+			// padded spellings of an otherwise right hash: not the unpadded base64url encoding
+			for _, pad := range []string{"=", "=="} {
+				sp := defaultSpec(typ, r)
+				sp.pad = map[string]string{field: pad}
+				add("hash-padded"+pad+":"+field, cloneCfg(base), buildReq(sp, r, base.MultihashAlgorithms), typ, false)
+			}
 			// length limit
 			h := b0.hashes[field]
 			if h != "" {
@@ -432,6 +444,9 @@ func genParseCases(r *rand.Rand) []parseCase {
 			sp := defaultSpec(typ, r)
 			sp.updCIsCurrentKey = true
 			add("next-commitment-is-current-key", cloneCfg(base), buildReq(sp, r, base.MultihashAlgorithms), typ, false)
+			sp = defaultSpec(typ, r)
+			sp.updCIsCurrentKey, sp.pad = true, map[string]string{"updateCommitment": "=="}
+			add("next-commitment-is-current-key-padded", cloneCfg(base), buildReq(sp, r, base.MultihashAlgorithms), typ, false)
 			c := cloneCfg(base)
 			c.MultihashAlgorithms = []uint{18, 19}
 			c.MaxOperationHashLength = 200
@@ -629,11 +644,18 @@ func genC03(seed int64, tier string) []caseOut {
 	}
 	for i := 0; i < n; i++ {
 		algs := [][]uint{{18}, {18, 19}, {19}, {19, 18}, {18}}[i%5] // every configuration shape in every run
+		unsupported := i%10 == 7                                    // a configured multihash code the library cannot compute (sha3-256)
+		if unsupported {
+			algs = []uint{18, 22}
+		}
 		cfg := baseProtocol(r)
 		cfg.MultihashAlgorithms = algs
 		cfg.MaxOperationHashLength = 200
 		sp := defaultSpec("create", r)
 		code := uint64(algs[r.Intn(len(algs))])
+		if unsupported {
+			code = 18
+		}
 		sp.deltaHashCode, sp.updCCode, sp.recCCode = code, code, code
 		switch (i / 5) % 6 {
 		case 0:
@@ -679,6 +701,26 @@ func genC03(seed int64, tier string) []caseOut {
 		addVariant("canonical", b.bytes, true)
 		addVariant("respelled", []byte(spell(tree, r, 1)), true)
 		addVariant("respelled", []byte(spell(tree, r, 2)), true)
+		// the anchored form of the accepted request is the same request: same suffix when parsed again
+		if mop, err := p.ParseOperation("did:ns", b.bytes, false); err == nil {
+			if aop, err := model.GetAnchoredOperation(mop); err == nil {
+				addVariant("anchored-form", aop.OperationRequest, true)
+			} else {
+				addVariant("anchored-form-failed", nil, true)
+			}
+		}
+		if unsupported { // a delta hash recorded under the configured but uncomputable code can never be checked: refused
+			junk := make([]byte, 32)
+			rngReader{r}.Read(junk)
+			req := M{}
+			json.Unmarshal(b.bytes, &req)
+			req["suffixData"].(map[string]interface{})["deltaHash"] = b64(multihash(22, junk))
+			mustRefuse = true
+			addVariant("delta-hash-under-uncomputable-code", jcs(req), false)
+			req["delta"].(map[string]interface{})["patches"] = A{M{"action": "add-also-known-as", "uris": A{"https://attacker.example"}}}
+			addVariant("delta-hash-under-uncomputable-code-other-delta", jcs(req), false)
+			mustRefuse = false
+		}
 		if f, ok := sp.origin.(float64); ok && f == 0 {
 			for _, z := range []string{"-0", "-0.0", "0.0", "0e5", "0E-3", "-0.00", "-0e0"} {
 				addVariant("respelled-zero:"+z, bytes.Replace(b.bytes, []byte(`"anchorOrigin":0`), []byte(`"anchorOrigin":`+z), 1), true)
